@@ -116,6 +116,10 @@ fn g_stubs(r: &mut Rng) -> Scenario {
     Scenario::Stubs(stubs::gen(r))
 }
 
+fn g_stubs_retry(r: &mut Rng) -> Scenario {
+    Scenario::Stubs(stubs::gen_retry(r))
+}
+
 fn g_listener(r: &mut Rng) -> Scenario {
     Scenario::Listener(listener::gen(r))
 }
@@ -356,7 +360,7 @@ pub fn checks() -> Vec<CheckSpec> {
             SERVER_REAL, SERVER_STUB,
             &["timer granularity 1 ms modelled as 2 ms slack"]),
         spec("C07", "exploration",
-            vec![gen("bytes.roundtrip", 2, g_bytes_roundtrip), gen("server.general", 1, g_server_general), gen("server.deadlines", 1, g_server_deadlines), gen("e2e.deadlines", 3, g_e2e_deadlines), gen("e2e.general", 1, g_e2e_general), gen("client.general", 1, g_client_general)],
+            vec![gen("bytes.roundtrip", 2, g_bytes_roundtrip), gen("server.general", 1, g_server_general), gen("server.deadlines", 1, g_server_deadlines), gen("e2e.deadlines", 3, g_e2e_deadlines), gen("e2e.general", 1, g_e2e_general), gen("client.general", 1, g_client_general), gen("stubs.retry", 1, g_stubs_retry)],
             q / 6, t / 6,
             "request deadlines 0 ms .. 1 h (including already expired at encode time) through JSON and bincode over a SimPipe with virtual latency and through the in-memory transport; the decoded / handler-observed deadline is compared with the caller's deadline and the measured transit time; JSON requests that omit the deadline must get decode time + 10 s",
             &["tarpc::context deadline (de)serialisation, serde_transport, wire types (real)", "BaseChannel / Requests / execute passing the request context to the handler (real)"],
@@ -379,7 +383,7 @@ pub fn checks() -> Vec<CheckSpec> {
             "client: last handle dropped / peer EOF at a random point of every run plus at the end of every run; server: inbound EOF after the script with mixed in-flight work",
             BOTH_REAL, BOTH_STUB, &[]),
         spec("C11", "exploration",
-            vec![gen("client.general", 2, g_client_general), gen("client.abandon", 2, g_client_abandon), gen("server.general", 2, g_server_general), gen("server.cancel", 1, g_server_cancel), gen("server.dups", 1, g_server_dups), gen("server.parked", 1, g_server_parked), gen("e2e.general", 1, g_e2e_general)],
+            vec![gen("client.general", 2, g_client_general), gen("client.abandon", 2, g_client_abandon), gen("server.general", 2, g_server_general), gen("server.cancel", 1, g_server_cancel), gen("server.dups", 1, g_server_dups), gen("server.parked", 1, g_server_parked), gen("e2e.general", 1, g_e2e_general), gen("server.faults", 1, g_server_faults), gen("client.faults", 1, g_client_faults)],
             q, t,
             "in-flight and timer counts (hook H3) sampled after every dispatch / request-stream poll, compared with an interval model at every sample and at every idle point",
             BOTH_REAL, BOTH_STUB, &[]),
